@@ -2163,3 +2163,13 @@ V(id='c13-exact-root-one-sided-candidates', prop='C13', file='mpmath/libmp/libel
   old="    for c in (t-1, t, t+1, t+2):", new="    for c in (t, t+1):", expect='fire:E-X1:exact_nthroot')
 V(id='c13-benign-exact-root-more-candidates', prop='C13', file='mpmath/libmp/libelefun.py',
   old="    for c in (t-1, t, t+1, t+2):", new="    for c in (t-2, t-1, t, t+1, t+2):", expect='silent')
+
+# ---- C13 E-X2: half-integer exponents go through the exact square root ----
+V(id='c13-pow-half-integer-only-one-half', prop='C13', file='mpmath/libmp/libelefun.py',
+  old="    if texp == -1:\n        if tman == 1:", new="    if texp == -1 and tman < 4:\n        if tman == 1:",
+  expect='fire:E-X2:mpf_pow')
+V(id='c13-cpow-half-integer-through-log', prop='C13', file='mpmath/libmp/libmpc.py',
+  old="    if pexp == -1:\n        # the error of the square root is amplified by the exponent\n        sqrtz = mpc_sqrt(z, prec+10+pbc)\n        return mpc_pow_int(sqrtz, (-1)**psign * pman, prec, rnd)\n",
+  new="", expect='fire:E-X2:mpc_pow_mpf')
+V(id='c13-benign-pow-half-integer-reordered', prop='C13', file='mpmath/libmp/libelefun.py',
+  old="    if texp == -1:\n        if tman == 1:", new="    if -1 == texp:\n        if tman == 1:", expect='silent')
